@@ -193,6 +193,9 @@ class ModelMixin:
                 return SV("seq", self.mkseq([box(x) for x in v.x]))
             if v.k == "none":
                 return SV("seq", z3.Empty(SeqV))
+            if v.k in ("str", "bytes", "int", "bool", "float"):
+                # not a sequence object: the term is total but unspecified (only meaningful under a guard that excludes this case)
+                return SV("seq", self.hget(st, "$seq", Val.rv(box(v))))
             raise SpecError("seq() of " + v.k)
         if name == "dict_of":
             v = self.concretize(st, a[0])
@@ -202,6 +205,9 @@ class ModelMixin:
                 return SV("sdict", (self.dom_of(st, v), self.map_of(st, v)), h=v.h)
             if v.k == "val":
                 r = Val.rv(v.t)
+                return SV("sdict", (self.hget(st, "$dom", r), self.hget(st, "$map", r)))
+            if v.k in ("str", "bytes", "int", "bool", "float", "none"):
+                r = Val.rv(box(v))
                 return SV("sdict", (self.hget(st, "$dom", r), self.hget(st, "$map", r)))
             raise SpecError("dict_of() of " + v.k)
         if name == "dom":
@@ -629,6 +635,13 @@ class ModelMixin:
                                                      z3.And(z3.Select(dom_, wit(vq)), z3.Select(mp_, wit(vq)) == vq)),
                                     patterns=[z3.Contains(vals, z3.Unit(vq))]))
                 return [Res(st, self.new_list(st, vals, self.key_hint(d, SV("val", ks[0]))))]
+            if v.k == "val" and self.implied(st, z3.And(Val.is_RefV(v.t), issub(clsof(Val.rv(v.t)), self.ct.id("set")))):
+                # a set object (isinstance(x, set) established on this path): its elements live in `$dom`; list(x) enumerates them
+                ks = self.dict_keys_seq(st, SV("dict", Val.rv(v.t)))
+                out = self.new_list(st, ks)
+                if name == "tuple":
+                    out.x = "tuple"
+                return [Res(st, out)]
             raise Unsupported("%s() of %s" % (name, v.k))
         if name == "set":
             v = a[0] if a else None
@@ -795,6 +808,12 @@ class ModelMixin:
 
     def sorted_(self, st, v, kw):
         v = self.concretize(st, v)
+        if v.k == "val" and self.implied(st, z3.And(Val.is_RefV(v.t), issub(clsof(Val.rv(v.t)), self.ct.id("set")))):
+            # sorted(a set of arbitrary values): TypeError unless the elements are mutually comparable (not interpreted: either outcome)
+            self.assumptions.add("sorted(xs) without key over values of unknown types: raises TypeError when two elements are not comparable")
+            ks = self.dict_keys_seq(st, SV("dict", Val.rv(v.t)))
+            cmp_ok = self.fresh("comparable", B)
+            return self.may_raise(st, cmp_ok, "TypeError", lambda s: self.sorted_(s, SV("seq", ks), kw))
         self.assumptions.add("sorted(xs): a permutation of xs (same length, same membership); order by key not interpreted")
         if v.k == "dictview" and v.t[1] == "items":
             d = v.t[0]
@@ -814,6 +833,8 @@ class ModelMixin:
             st.assume(z3.Length(out) == z3.Length(sq))
             st.assume(z3.ForAll([k], z3.Contains(out, z3.Unit(k)) == z3.Contains(sq, z3.Unit(k)),
                                 patterns=[z3.Contains(out, z3.Unit(k)), z3.Contains(sq, z3.Unit(k))]))
+            if not st.spec:
+                return [Res(st, self.new_list(st, out, v.h))]      # sorted() returns a new list object
             return [Res(st, SV("seq", out, h=v.h))]
         raise Unsupported("sorted() of " + v.k)
 
